@@ -153,3 +153,12 @@ impl<T: RecognizerReadable> ReconDecoder<T> {
         self.decoder.reset();
     }
 }
+
+/// Verification hooks (only with `--cfg swimos_verif`): exposes otherwise private queue
+/// components so that they can be driven directly by an external harness.
+#[cfg(swimos_verif)]
+pub mod verif_hooks {
+    pub use crate::event_queue::{to_operation, Action, EventQueue};
+    pub use crate::lanes::verif_queues::{SyncQueue, ToWrite, WriteQueues};
+    pub use crate::map_storage::{drop_or_take, DropOrTake, MapOpsWithEntry, MapStoreInner};
+}
